@@ -614,7 +614,7 @@ func cmdCheck(id, tier string) int {
 			"rule":                          def.Rule,
 			"path_ends":                     ends,
 			"reachability_witnesses":        covers,
-			"solver":                        map[string]interface{}{"primary": "z3 5.1.0 (z3-new -in, QF_BV, push/pop)", "queries": queries, "sat": sat, "unsat": unsat, "unknown": unknown, "solve_s": round2(solve.Seconds())},
+			"solver":                        map[string]interface{}{"primary": "z3 5.1.0 (z3-new -in, QF_BV, global definitions + check-sat-assuming, reset per configuration)", "queries": queries, "sat": sat, "unsat": unsat, "unknown": unknown, "solve_s": round2(solve.Seconds())},
 			"cross_solver_rechecked":        crossChecked,
 			"bounds":                        def.Bounds,
 			"functions_encoded":             sortedKeys(funcs),
